@@ -8,7 +8,11 @@ src = f"/tmp/out-{ID}/{M}"
 dst = f"/verif/seeded/{ID}-{M}"
 os.makedirs(dst, exist_ok=True)
 for f in os.listdir(src):
-    shutil.copy(os.path.join(src, f), dst)
+    sp = os.path.join(src, f)
+    if os.path.isdir(sp):
+        shutil.copytree(sp, os.path.join(dst, f), dirs_exist_ok=True)
+    else:
+        shutil.copy(sp, dst)
 meta = json.load(open(os.path.join(dst, "meta.json")))
 meta["property"] = ID
 meta["confirmed_by_main_session"] = {
